@@ -287,6 +287,22 @@ func (vc *VC) satScript(ctxLen int, extra *Term) string {
 	return sb.String()
 }
 
+// satScriptQF: like satScript, without the quantified assumptions.
+func (vc *VC) satScriptQF(ctxLen int, extra *Term) string {
+	var sb strings.Builder
+	sb.WriteString("(set-logic ALL)\n")
+	sb.WriteString(vc.preambleFor(vc.usesMS(ctxLen, extra)))
+	for _, c := range vc.cmds[:ctxLen] {
+		if strings.Contains(c, "(forall ") || strings.Contains(c, "(exists ") {
+			continue
+		}
+		sb.WriteString(c)
+		sb.WriteByte('\n')
+	}
+	sb.WriteString("(assert " + extra.String() + ")\n(check-sat)\n")
+	return sb.String()
+}
+
 // pathSplit: a goal (=> R G) whose guard R is a reach condition is equivalent to the goals (=> path G) for the paths that
 // make up R: reach conditions are defined as (or r1 ... rn) at join blocks and (and r c) on branch edges, and are expanded a
 // few levels up. On each path the if-then-else terms of the merged state resolve by propagation, which matters for
